@@ -101,3 +101,37 @@ def register_sma(reg):
                     [('step = aux - 1.0', 'step = 1.0 - aux'),
                      ('aux = 1.0 / (1.0 + step)', 'aux = 1.0 / (1.0 - step)')],
         ))
+    register_conditions(reg)
+
+
+def register_conditions(reg):
+    """EllipseFitter._check_conditions, the eps = 0 crossing: a negative ellipticity is replaced by
+    its absolute value (capped) and the axes are swapped, i.e. the position angle is *rotated* by a
+    quarter turn (not mirrored), staying in [0, pi) when it was there; the centre is untouched."""
+    Fi = 'photutils/isophote/fitter.py::EllipseFitter'
+    reg.record('FitGeometry', {'eps': 'real', 'pa': 'real', 'x0': 'real', 'y0': 'real'})
+    reg.record('FitSample', {'gradient_error': 'real', 'gradient_relative_error': 'real',
+                             'gradient': 'real', 'geometry': 'FitGeometry',
+                             'image': ('arr', 2, 'real')})
+    g, o = 'sample.geometry', 'old_sample.geometry'
+    reg.add(Contract(
+        target=f'{Fi}._check_conditions', props=['C20'], kind='staticmethod',
+        params={'sample': 'FitSample', 'maxgerr': 'real', 'going_inwards': 'bool',
+                'lexceed': 'bool'},
+        requires=[f'0 <= {g}.pa and {g}.pa < pi_()', 'pi_() > 3 and pi_() < 4'],
+        ensures=[
+            ('eps-crossing-swaps-the-axes-by-a-quarter-turn',
+             f'implies({o}.eps < 0, ({g}.pa - {o}.pa == pi_() / 2 or {o}.pa - {g}.pa == pi_() / 2) '
+             f'and 0 <= {g}.pa and {g}.pa < pi_())'),
+            ('eps-crossing-takes-the-absolute-ellipticity-capped',
+             f'implies({o}.eps < 0, {g}.eps == min(-{o}.eps, 0.95))'),
+            ('otherwise-the-angle-is-kept', f'implies({o}.eps >= 0, {g}.pa == {o}.pa)'),
+            ('exact-circle-made-slightly-flat',
+             f'implies({o}.eps == 0, {g}.eps == 0.05) and implies({o}.eps > 0, {g}.eps == {o}.eps)'),
+            ('centre-untouched', f'{g}.x0 == {o}.x0 and {g}.y0 == {o}.y0'),
+        ],
+        mutants=[('sample.geometry.pa += PI2', 'sample.geometry.pa -= PI2'),
+                 ('if sample.geometry.pa < PI2:', 'if sample.geometry.pa <= 0:'),
+                 ('min(-sample.geometry.eps, MAX_EPS)', 'min(sample.geometry.eps, MAX_EPS)'),
+                 ('sample.geometry.eps = MIN_EPS', 'sample.geometry.eps = 0.0')],
+    ))
